@@ -54,8 +54,22 @@ def base_script(rng, corpus_files):
 
 
 def mutate(rng, text):
-    k = rng.randint(0, 13)
+    k = rng.randint(0, 14)
     if not text:
+        return text
+    if k == 14:                                       # commands (and the options they need) before the logic is set, or after a logic that is refused
+        ls = text.split("\n")
+        i = next((j for j, l in enumerate(ls) if l.startswith("(set-logic")), None)
+        if i is not None:
+            pre = rng.sample(["(set-option :produce-unsat-cores true)", "(set-option :produce-models true)", "(set-option :produce-interpolants true)",
+                              "(set-option :produce-proofs true)", "(set-option :produce-assignments true)", "(get-unsat-core)", "(get-model)", "(get-proof)",
+                              "(get-interpolants N1 N2)", "(get-assignment)", "(get-value (x0))", "(check-sat)", "(push 1)", "(pop 1)", "(assert true)",
+                              "(declare-fun q9 () Bool)", "(define-fun d9 () Bool true)", "(get-info :status)", "(simplify)", "(reset)", "(exit)"[:0] or "(echo \"x\")"],
+                             rng.randint(1, 5))
+            if rng.random() < 0.3:
+                ls[i] = rng.choice(["(set-logic QF_NRA)", "(set-logic NOSUCHLOGIC)", "(set-logic)", "(set-logic QF_UF QF_LRA)"])
+                return "\n".join(ls[:i + 1] + pre + ls[i + 1:])
+            return "\n".join(ls[:i] + pre + ls[i:])
         return text
     if k == 10:                                       # a symbol is replaced by a token that is awkward for printing / scanning / arithmetic
         toks = re.findall(r"(?<![\w.|])[A-Za-z][A-Za-z0-9_]*(?![\w.|])", text)
@@ -205,7 +219,9 @@ def run_one(binary, data, mode, timeout):
 def run_case(args):
     idx, seed, binary, corpus_files = args
     rng = random.Random(f"c18-{seed}-{idx}")
-    if isinstance(idx, str):
+    if idx == "deep-nesting":
+        text = "(set-logic QF_UF)\n(assert " + "(not " * 100000 + "true" + ")" * 100000 + ")\n(check-sat)\n"
+    elif isinstance(idx, str):
         text = open(idx, errors="replace").read()
     else:
         text = base_script(rng, corpus_files)
@@ -242,6 +258,8 @@ def run_case(args):
 
 
 def classify(pr, text):
+    if pr.get("kind") == "crash" and text.count("(not (not (not (not") >= 1 and text.count("(not ") >= 50000:
+        return "deep-nesting-stack-overflow"
     return None
 
 
@@ -254,7 +272,7 @@ def run(tier):
     n = 320 if tier == "quick" else 8000
     own = sorted(str(f) for f in (common.VERIF / "corpus" / "C18").glob("*.smt2"))
     with mp.Pool(min(common.JOBS, 14)) as pool:
-        results = pool.map(run_case, [(i, chk.seed, binary, corpus_files) for i in own + list(range(n))], chunksize=2)
+        results = pool.map(run_case, [(i, chk.seed, binary, corpus_files) for i in own + ["deep-nesting"] + list(range(n))], chunksize=2)
     diag = crashes = 0
     for r in results:
         diag += r["diag"]
